@@ -1658,7 +1658,10 @@ class t2data(object):
         self.grid.rocktypelist = deepcopy(source.grid.rocktypelist)
         self.grid.rocktype = deepcopy(source.grid.rocktype)
         for blk in self.grid.blocklist:
-            blk.rocktype = self.grid.rocktype[source.grid.block[mapping[blk.name]].rocktype.name]
+            if blk.name in mapping:
+                blk.rocktype = self.grid.rocktype[source.grid.block[mapping[blk.name]].rocktype.name]
+            else: # (e.g. atmosphere block, with no atmosphere in the source)
+                blk.rocktype = self.grid.rocktype[self.grid.rocktypelist[0].name]
 
     def transfer_generators_from(self, source, sourcegeo, geo,
                                  top_generator = [], bottom_generator = [],
@@ -1715,7 +1718,7 @@ class t2data(object):
             else: # other generators, do block by block:
                 sourceblock = source.grid.block[sourcegen.block]
                 mappedblocks = [blk for blk in self.grid.blocklist if
-                                mapping[blk.name] == sourceblock.name]
+                                mapping.get(blk.name) == sourceblock.name]
                 if preserve_totals: vol = sum([blk.volume for blk in mappedblocks])
                 else: vol = sourceblock.volume
                 for blk in mappedblocks:
@@ -1764,7 +1767,7 @@ class t2data(object):
         self.parameter = deepcopy(source.parameter)
         if self.parameter['print_block'] is not None:
             mappedblocks = [blk for blk in self.grid.blocklist if
-                            mapping[blk.name] == self.parameter['print_block']]
+                            mapping.get(blk.name) == self.parameter['print_block']]
             if len(mappedblocks) > 0: self.parameter['print_block'] = mappedblocks[0].name
             else: self.parameter['print_block'] = None
         self.multi = copy(source.multi)
@@ -1791,7 +1794,7 @@ class t2data(object):
         self.incon = {}
         for blkname, inc in source.incon.items():
             mappedblocks = [blk for blk in self.grid.blocklist if
-                            mapping[blk.name] == blkname]
+                            mapping.get(blk.name) == blkname]
             for blk in mappedblocks: self.incon[blk.name] = inc
         self.indom = copy(source.indom)
         # incon file:
